@@ -239,6 +239,9 @@ func recElems(a []string) ([]entities.InfoElementWithValue, error) {
 	es = append(es, entities.NewIPAddressInfoElement(regIE("destinationIPv4Address"), net.ParseIP(fk.DestinationAddress).To4()))
 	es = append(es, entities.NewUnsigned8InfoElement(regIE("flowType"), uint8(ft)))
 	for i, name := range corrFields {
+		if corr[i] == "~" {
+			continue // the record does not carry this correlate field (same token as the engine `agg` of cmd/harness)
+		}
 		e, err := mkElem(regIE(name), corr[i])
 		if err != nil {
 			return nil, err
@@ -306,7 +309,7 @@ func aggDump(rec *intermediate.AggregationFlowRecord) string {
 	for _, n := range corrFields {
 		e, _, ok := r.GetInfoElementWithValue(n)
 		if !ok {
-			corr = append(corr, "?")
+			corr = append(corr, "~")
 		} else {
 			corr = append(corr, valueToken(e))
 		}
